@@ -76,7 +76,7 @@ stats = ('**%d seeded changes** in ' + str(n_waves) + ' waves (two per property 
          'a fault at a particular point, a multi-step sequence on the same object, or two cooperating sites; the later waves asked for one change exposed by an unusual input alone and one that needs a sequence, a fault, an interleaving or two cooperating sites, and listed the earlier attempts so that mechanisms differ). '
          '%d were detected by the checks as they stood when the change arrived; %d were missed at first and are detected since the checks were strengthened '
          '(what was added is quoted in the last column); %d are not detected. %d are reported by the check of a sibling property that owns the violated clause '
-         '(for example an ownership defect seeded under the fixpoint property is reported by C08): the column says which.' + open_txt + '\n\n') % (n_all, n_first, n_later, n_open, n_other)
+         '(for example an ownership defect seeded under the fixpoint property is reported by C08): the column says which.' + open_txt + ' After the sixth wave the seeds of properties C01-C06 (109 of the 240) were evaluated once more against the final checks (tools/regress.sh): all are still reported; six ownership defects seeded under C02, C04 and C05 are reported by C08 since label scoping (their rows say so). The remaining rows show the result of their last evaluation, made when their wave was processed.\n\n') % (n_all, n_first, n_later, n_open, n_other)
 sec9 = ''
 if rows:
     sec9 = (stats + 'Changes written by independent sub-agents that saw only the property text and a scratch worktree;\n'
